@@ -137,7 +137,7 @@ def deadline_tests(ctx, f, head):
             c = unawait(c)
             if isinstance(c, ast.Compare) and len(c.ops) == 1 and isinstance(c.ops[0], ast.IsNot) and isinstance(c.comparators[0], ast.Constant) and c.comparators[0].value is None:
                 guard_none.append(key(c.left))
-            elif cmpx is None and isinstance(c, ast.Compare) and len(c.ops) == 1 and isinstance(c.ops[0], (ast.Gt, ast.GtE)) and _elapsed(ctx, f, n, c.left, inside) is not None:
+            elif cmpx is None and _elapsed(ctx, f, n, c, inside) is not None:
                 cmpx = c
             elif cmpx is None:
                 extra.append(c)       # evaluated before the comparison
@@ -146,8 +146,7 @@ def deadline_tests(ctx, f, head):
                 break
         if cmpx is None:
             continue
-        bound = cmpx.comparators[0]
-        start, clock = _elapsed(ctx, f, n, cmpx.left, inside)
+        start, clock, bound = _elapsed(ctx, f, n, cmpx, inside)
         if any(gk != key(bound) for gk in guard_none):
             continue
         if extra and not _guard_false_leaves_loop(ctx, f, head, n, extra):
@@ -163,20 +162,60 @@ def deadline_tests(ctx, f, head):
     return out
 
 
-def _elapsed(ctx, f, n, left, inside):
-    """`now() - start` (directly or through a temporary) with start = now() of the same clock taken before the loop: -> (start var, clock)."""
+def _elapsed(ctx, f, n, cmp, inside):
+    """A comparison that says "the clock has advanced by more than BOUND since START": `now() - start > bound`,
+    `now() > start + bound`, `now() > deadline` with `deadline = start + bound` / `now() + bound` computed before the loop,
+    `deadline < now()`, `deadline - now() < 0` ... (each side possibly through temporaries).  Decided on the signed sum of
+    atoms of `greater - smaller`: exactly one +clock() read inside the loop, exactly one -clock() read before the loop (same
+    clock), and one further negative atom, the bound, whose variables have the same definitions at the test.
+    -> (start key, clock, bound expr) or None."""
     df = ctx.df(f)
-    dn, left = resolve_copy(ctx, f, n, left)
-    if dn is not n and dn not in inside:
-        return None              # elapsed time computed before the loop: never advances
-    if not (isinstance(left, ast.BinOp) and isinstance(left.op, ast.Sub) and _is_clock_call(ctx, f, left.left) and isinstance(left.right, ast.Name)):
+    cmp = unawait(cmp)
+    if not (isinstance(cmp, ast.Compare) and len(cmp.ops) == 1):
         return None
-    start = left.right.id
-    clock = _is_clock_call(ctx, f, left.left)
-    ds = df.reaching(dn, start)
-    if not ds or not all(d.kind == "assign" and not d.path and _is_clock_call(ctx, f, d.value) == clock and d.node not in inside for d in ds):
+    op = cmp.ops[0]
+    if isinstance(op, (ast.Gt, ast.GtE)):
+        hi, lo = cmp.left, cmp.comparators[0]
+    elif isinstance(op, (ast.Lt, ast.LtE)):
+        hi, lo = cmp.comparators[0], cmp.left
+    else:
         return None
-    return start, clock
+    atoms = []
+
+    def walk(node, e, sign, depth=0):
+        e = unawait(e)
+        if isinstance(e, ast.BinOp) and isinstance(e.op, (ast.Add, ast.Sub)):
+            walk(node, e.left, sign, depth)
+            walk(node, e.right, sign if isinstance(e.op, ast.Add) else -sign, depth)
+            return
+        if isinstance(e, ast.Constant) and e.value == 0 and not isinstance(e.value, bool):
+            return
+        if isinstance(e, ast.Name) and depth < 6:
+            d = df.unique_def(node, e.id)
+            if d is not None and d.kind == "assign" and not d.path and d.value is not None:
+                v = unawait(d.value)
+                if (isinstance(v, ast.BinOp) and isinstance(v.op, (ast.Add, ast.Sub))) or _is_clock_call(ctx, f, v) or isinstance(v, ast.Name):
+                    walk(d.node, v, sign, depth + 1)
+                    return
+        atoms.append((sign, node, e))
+    walk(n, hi, 1)
+    walk(n, lo, -1)
+    now = [(sg, nd, e) for (sg, nd, e) in atoms if _is_clock_call(ctx, f, e) and sg > 0]
+    then = [(sg, nd, e) for (sg, nd, e) in atoms if _is_clock_call(ctx, f, e) and sg < 0]
+    rest = [(sg, nd, e) for (sg, nd, e) in atoms if not _is_clock_call(ctx, f, e)]
+    if len(now) != 1 or len(then) != 1 or len(rest) != 1 or rest[0][0] >= 0:
+        return None
+    (_, n_now, e_now), (_, n_then, e_then), (_, n_b, bound) = now[0], then[0], rest[0]
+    clock = _is_clock_call(ctx, f, e_now)
+    if _is_clock_call(ctx, f, e_then) != clock:
+        return None
+    if not (n_now is n or n_now in inside) or n_then in inside or n_then is n:
+        return None              # elapsed time computed before the loop never advances; a start taken inside restarts every cycle
+    if n_b is not n:
+        for x in ast.walk(bound):
+            if isinstance(x, ast.Name) and set(id(d) for d in df.reaching(n, x.id)) != set(id(d) for d in df.reaching(n_b, x.id)):
+                return None
+    return ("start@%d" % n_then.id if hasattr(n_then, "id") else "start", clock, bound)
 
 
 def check(ctx, R):
@@ -288,10 +327,8 @@ def _await_subset(ctx, R, roles, T):
             if not stay:
                 continue
             dl = [d for d in deadline_tests(ctx, f, head) if _is_read_timeout(T, f, d[0], d[1]) and not d[3]]
-            ok = bool(dl) and head not in g.reach([n], avoid=[d[0] for d in dl], exc=True, edge_filter=lambda s_, d_, l_: True) or False
-            if dl:
-                # every cycle that stays in the loop passes a deadline check
-                ok = head not in g.reach([n], avoid=[d[0] for d in dl], exc=True)
+            # every cycle of the loop passes a deadline check (wherever in the cycle the read sits)
+            ok = bool(dl) and head not in g.reach([head], avoid=[d[0] for d in dl], exc=True)
             R.check(ok, "LOOP-await", sub, "the wait for %s, during which %s packets are accepted, has its own deadline on every cycle" % (sorted(x.decode() for x in leave), sorted(x.decode() for x in stay)),
                     "the loop awaits %s but also accepts %s without a deadline of its own: a device that keeps sending those (each within the read timeout) makes the operation spin for ever" % (
                         sorted(x.decode() for x in leave) or "an exit", sorted(x.decode() for x in stay)), f.loc(head.ast))
